@@ -498,8 +498,9 @@ def _prepare(rep, tier, rng):
     model, p2 = run_sharded(st["run"], lines)
     st["died_enc"] = p1
     st["died_enc_model"] = p2
+    st["unparsable"] = []
     for c, a, b in zip(cases, impl, model):
-        c.impl_enc, c.model_enc = a, b
+        c.impl_enc, c.model_enc = _wellformed(c, a, st["unparsable"]), b
     st["cases"] = cases
     # the same encoders on NON-EMPTY output buffers (they append: level bytes of a page, an earlier page, ...)
     pcs, plines = [], []
@@ -530,6 +531,35 @@ def prefix_expect(c, pre):
     if c.fam == "dict":
         return "OK %s %s %s" % (hx(pre + unhx(t[1])), hx(pre + unhx(t[2])), " ".join(t[3:]))
     return "OK " + hx(pre + unhx(t[1]))
+
+
+def _wellformed(c, a, bad):
+    """the driver's answer to an encode line, or 'FAULT unparsable ...' (recorded in bad) when it does not have the agreed shape:
+    later code may then split an OK line without looking again"""
+    try:
+        t = a.split()
+        if not t:
+            raise ValueError("empty line")
+        if t[0] == "OK":
+            need = 6 if c.fam == "dict" else 2
+            if len(t) != need:
+                raise ValueError("%d tokens" % len(t))
+            unhx(t[1])
+            if c.fam == "dict":
+                unhx(t[2]); int(t[3]); int(t[4])
+                [int(x, 16) for x in t[5].split(",")] if t[5] != "-" else []
+        elif t[0] not in ("ERR", "FAULT"):
+            raise ValueError("unknown status")
+        return a
+    except (ValueError, IndexError) as e:
+        bad.append((c, a, str(e)))
+        return "FAULT unparsable driver output"
+
+
+def _legit_refusal(c):
+    """an encoder may refuse for capacity (d32/d64/bss cases made with a small cap) and for an empty list (dl/ds)"""
+    return (c.fam in ("d32", "d64") and c.tag == "cap") or (c.fam in ("dl", "ds") and not c.vals) \
+        or (c.fam == "bss" and c.tag == "cap-1") or (c.fam in ("d32", "d64") and c.par < 40 and c.vals)
 
 
 def _dist(cases):
@@ -670,6 +700,8 @@ def check_enc2_c11(rep, tier, rng):
                       _rp("line", pr[3]))
     for pr in st["died_enc_model"]:
         rep.tie_broken("enc2 model runner died (rc=%s): %s" % (pr[1], pr[2][-300:]), pr[3])
+    for c, a, why in st["unparsable"]:
+        rep.violation("enc2: unparsable answer of the %s encoder driver (%s): %s" % (c.fam, why, a[:200]), _rp("line-ok", c.enc_line, impl=a[:400]))
 
     # ---- corpus first
     corpus = _corpus_lines()
@@ -696,8 +728,7 @@ def check_enc2_c11(rep, tier, rng):
         if t[0] != "OK":
             # an encoder may refuse for capacity (d32/d64/bss with a small cap) and for an empty list (dl/ds); anything
             # else is a failure of the property on a valid value sequence
-            legit = (c.fam in ("d32", "d64") and c.tag == "cap") or (c.fam in ("dl", "ds") and not c.vals) \
-                or (c.fam == "bss" and c.tag == "cap-1") or (c.fam in ("d32", "d64") and c.par < 40 and c.vals)
+            legit = _legit_refusal(c)
             rep.count(c.enc_line, nontrivial=False)
             if not legit:
                 rep.violation("enc2: %s encoder rejects a valid value sequence (%s): %s" % (c.fam, c.tag, a),
@@ -765,8 +796,10 @@ def check_enc2_c11(rep, tier, rng):
         rep.count(l)
         t = a.split()
         bad = None
-        if t[0] != "OK":
+        if not t or t[0] != "OK":
             bad = "the encoder fails: " + a
+        elif len(t) not in (3, 6) or not all(x.lstrip("-").isdigit() for x in t[1:]):
+            bad = "unparsable answer: " + a[:200]
         elif int(t[1]) > int(t[2]):
             bad = "max_encoded_size %s is below the %s bytes really written" % (t[2], t[1])
         elif c is not None and int(t[1]) != len(unhx(c.impl_enc.split()[1])):
@@ -1035,11 +1068,17 @@ def check_enc2_c12(rep, tier, rng):
     cases = [c for c in st["cases"] if c.fam != "dict"]
 
     # ---- direction 1: carquet's bytes read by the independent decoders (Python; extracted Coq spec on a subset)
+    for pr in st["died_enc"] + st["died_prefix"]:
+        rep.violation("enc2: an encoder died on a valid value sequence, nothing for the specification decoder to read (rc=%s): %s"
+                      % (pr[1], pr[2][-500:]), _rp("line", pr[3]))
     spec_lines, spec_meta = [], []
     sub = 1.0 if tier == "thorough" else 0.35
     for c in cases:
         t = (c.impl_enc or "").split()
         if not t or t[0] != "OK":
+            if not _legit_refusal(c) and not st["died_enc"]:
+                rep.violation("enc2: %s encoder gives no stream for a valid value sequence (%s): %s" % (c.fam, c.tag, (c.impl_enc or "")[:100]),
+                              _rp("line-ok", c.enc_line, impl=(c.impl_enc or "")[:200]))
             continue
         if c.fam in ("d64", "d32", "dl", "ds") and not c.vals:
             continue
